@@ -452,6 +452,7 @@ pub fn nontrivial(prop: &str, c: &BTreeMap<String, u64>) -> bool {
         "C10" => g("runs_with_splits") > 0,
         "C11" => (g("pages_freed") > 0 && g("allocations_from_free_list") > 0) || g("audits_with_nonempty_free_list") > 0,
         "C14" => g("context_switches") >= 10 && g("failed_polls") >= 1,
+        "C20" if g("served_runs") > 0 => g("served_rows_responses") > 0 && g("sessions") > 0,
         "C20" => (g("pipe_fragmented_reads") + g("pipe_read_eintr") + g("pipe_short_writes")) > 0 && (g("truncated_streams") + g("garbage_streams") + g("mutated_frames") + g("mangled_frames")) > 0,
         "C17" => g("reads_nonempty_correct") > 0 && (g("reopens") + g("truncations") + g("appends_near_block_size")) > 0,
         "C01" => g("crash_points_after_an_ack") > 0,
@@ -468,7 +469,7 @@ pub fn engine_name(e: Engine) -> &'static str {
         Engine::Wal => "E3a-walsim",
         Engine::Btree => "E3b-btreesim",
         Engine::Thread => "E4-threadsim",
-        Engine::Wire => "E5-wiresim",
+        Engine::Wire => "E5-wiresim + E5b-served",
     }
 }
 
